@@ -92,14 +92,17 @@ class PVLDecoder(object):
 
          <Simple-Value> ::= (<Date-Time> | <Numeric> | <String>)
         """
-        if value.casefold() == self.grammar.none_keyword.casefold():
-            return None
+        # The keywords are ASCII words in any letter case ("fal\u017fe"
+        # casefolds to "false" too, but it is just a string).
+        if str(value).isascii():
+            if value.casefold() == self.grammar.none_keyword.casefold():
+                return None
 
-        if value.casefold() == self.grammar.true_keyword.casefold():
-            return True
+            if value.casefold() == self.grammar.true_keyword.casefold():
+                return True
 
-        if value.casefold() == self.grammar.false_keyword.casefold():
-            return False
+            if value.casefold() == self.grammar.false_keyword.casefold():
+                return False
 
         for d in (
             self.decode_quoted_string,
